@@ -168,6 +168,9 @@ def exec_job(job):
                 DEVFN[st[1]](h, st[2] if len(st) > 2 else 0)
             elif st[0] == "lock":
                 h.dev_set_lock(st[1])
+            elif st[0] == "sleep":
+                import time as _t
+                _t.sleep(st[1])
             elif st[0] == "model":
                 for ms in st[1]:
                     t = ms["t"]
@@ -392,6 +395,7 @@ def planned_runs(binary, scen, steps_list, batch, verdict, sigbase=None, label="
     for steps in steps_list:
         steps = [tuple(s) for s in steps]
         plans = [s[1] for s in steps if s[0] in ("edit", "check") and len(s) > 1 and s[1]]
+        steps = [s for s in steps]
         sig = {"mode": next((s[0] for s in steps if s[0] in ("edit", "check")), "history"),
                "fault": "plan" if plans else "none", "plan": ";".join(plans), "structured": bool(scen.kw["structured"])}
         if sigbase:
